@@ -8,7 +8,7 @@ import copy
 import json
 
 from dst.rng import Rng, derive
-from dst import harness, kernel, steps as steps_mod, struct
+from dst import harness, kernel, steps as steps_mod, struct, wiring
 from dst.kernel import V, tval, leaves
 from dst.wmodel import values_equal
 
@@ -29,7 +29,7 @@ def _depoll(spec):
 
 def gen_case(seed):
     r = Rng(derive(seed, 'parallel'))
-    kind = r.pick(['kernel', 'kernel', 'kernel', 'steps', 'struct', 'struct', 'struct'])
+    kind = r.pick(['kernel', 'kernel', 'kernel', 'steps', 'struct', 'struct', 'struct', 'wiring', 'wiring'])
     if kind == 'kernel':
         base = kernel.gen_case(derive(seed, 'base'))
         k_ = 0
@@ -48,6 +48,14 @@ def gen_case(seed):
         # steps that create parties at run time stay serial (their products do too)
         names = [sp['name'] for sp in base['procs']] + [
             sp['name'] for sp in base.get('steps', []) if not sp.get('gen')]
+    elif kind == 'wiring':
+        # ports of every shape (globs, '..', shared leaves, units, custom updaters,
+        # views handed back as updates) with every view and update crossing the pipe
+        base = wiring.gen_case(derive(seed, 'base'))
+        base['rebuild'] = None
+        for sp in base['procs']:
+            _depoll(sp)
+        names = [sp['name'] for sp in base['procs']]
     else:
         base = struct.gen_case(derive(seed, 'base'))
         for t in base['templates'].values():
@@ -86,11 +94,11 @@ def tail_ops(case):
 
 
 def _module(case):
-    return {'kernel': kernel, 'steps': kernel, 'struct': struct}[case['kind']]
+    return {'kernel': kernel, 'steps': kernel, 'struct': struct, 'wiring': wiring}[case['kind']]
 
 
 def validate(case):
-    mod = {'kernel': kernel, 'steps': steps_mod, 'struct': struct}[case['kind']]
+    mod = {'kernel': kernel, 'steps': steps_mod, 'struct': struct, 'wiring': wiring}[case['kind']]
     mod.validate(case['base'])
     if not case['par']['names']:
         raise harness.HarnessError('nothing parallel')
@@ -269,7 +277,7 @@ def check_transport(case, run_p, probes):
 # ---------------------------------------------------------------------------
 
 def real_spot(n=3, base_seed=1, max_workers=2, timeout=240):
-    """Runs a few small kernel cases on the real forkserver transport and
+    """Runs a few small kernel and wiring cases on the real forkserver transport and
     compares them with the serial run and with the SimMP run of the same case:
     a confirmation that the simulated transport and the real one give the same
     trajectory, and that the real workers are reaped.  Returns a list of
@@ -288,22 +296,23 @@ def real_spot(n=3, base_seed=1, max_workers=2, timeout=240):
         while done < n and i < 400:
             case = json.loads(json.dumps(gen_case(derive(base_seed, 'parallel', i))))
             i += 1
-            if case['kind'] != 'kernel' or len(case['par']['names']) > max_workers:
+            if case['kind'] not in ('kernel', 'wiring') or len(case['par']['names']) > max_workers:
                 continue
             if sum(op[1] for op in case['base']['ops']) > 60:
                 continue
             validate(case)
             base = case['base']
             tail = tail_ops(case)
-            run_s = kernel.execute(json.loads(json.dumps(base)))
+            mod = _module(case)
+            run_s = mod.execute(json.loads(json.dumps(base)))
             if run_s.exc is not None:
                 continue
-            run_p = kernel.execute(json.loads(json.dumps(base)), parallel=tuple(case['par']['names']),
-                                   sim_seed=case['par']['sched_seed'], tail_ops=tail)
+            run_p = mod.execute(json.loads(json.dumps(base)), parallel=tuple(case['par']['names']),
+                                sim_seed=case['par']['sched_seed'], tail_ops=tail)
             signal.alarm(timeout)
             try:
-                run_r = kernel.execute(json.loads(json.dumps(base)), parallel=tuple(case['par']['names']),
-                                       sim_seed=None, tail_ops=tail)
+                run_r = mod.execute(json.loads(json.dumps(base)), parallel=tuple(case['par']['names']),
+                                    sim_seed=None, tail_ops=tail)
             finally:
                 signal.alarm(0)
             done += 1
